@@ -1617,6 +1617,66 @@ example : ∃ N, ∀ fuel ≥ N,
       = [.list .n0 [.int 3]] by decide] at this
   exact this.2.1
 
+/-- **C06 (chained selections, record list below a list root, any spelling, string level).**  As `C06_chained_list_deep` with the
+position `P` of the outer record list in any spelling (`renderSp lead steps`: prefix none, `/` or `//`, indexes as `i`, `-k`,
+`last()`, `last()-k`, `i+j`, attached or a step of their own; `stepsGet` = plain Python indexing reaches the list):
+`P[k1 op v1]/items[k2 op v2]/f` returns the per-parent contributions through `get` / item access (`return_lists=True`) and
+`first` (`return_lists=False`); the tree is unchanged. -/
+theorem C06_chained_list_deep_spelled (cls : Cls) (xs : List Val) (lead : Lead) (steps : List StepSp)
+    (k1 opx1 op1 vq1 v1 items k2 opx2 op2 vq2 v2 f : Str) (lc : Cls) (rs : List Val) (d : Val)
+    (hp : PlainSteps steps) (hne : steps ≠ []) (hget : stepsGet (.list cls xs) steps = some (.list lc rs))
+    (hk1 : FieldKey k1) (hop1 : OpSpell opx1 op1) (hlit1 : LitSpell vq1 v1) (hv1 : PlainLit v1)
+    (hitems : PlainKey items) (hk2 : FieldKey k2) (hop2 : OpSpell opx2 op2) (hlit2 : LitSpell vq2 v2) (hv2 : PlainLit v2)
+    (hf : PlainKey f) (hrs : ∀ r ∈ rs, isDict r = true) (hg : ComparableK k1 v1 rs) (hin : InnerRecs items k2 v2 rs)
+    (fuel : Nat) (hfuel : fuel ≥ 10 * steps.length + rs.length + (rs.map (sel2InnerLen items)).sum + 30) :
+    let xp := renderSp lead steps ++ bracket (k1 ++ opx1 ++ vq1) ++ slash ++ items ++ bracket (k2 ++ opx2 ++ vq2) ++ slash ++ f
+    let valsT := selectChainedG true k1 items (condTest op1 (.str v1)) k2 f (condTest op2 (.str v2)) rs
+    let valsF := selectChainedG false k1 items (condTest op1 (.str v1)) k2 f (condTest op2 (.str v2)) rs
+    XPath.get fuel (.list cls xs) xp d = (.list cls xs, .ok (selected valsT d)) ∧
+    getItem fuel (.list cls xs) xp = (.list cls xs, selectedItem valsT) ∧
+    first fuel (.list cls xs) xp d = (.list cls xs, .ok (firstOf valsF d)) := by
+  have := xlds_chained_string cls xs lead steps k1 opx1 op1 vq1 v1 items k2 opx2 op2 vq2 v2 f lc rs d hp hne hget hk1 hop1
+    hlit1 hv1 hitems hk2 hop2 hlit2 hv2 hf hrs hg.guard hin.ok fuel hfuel
+  simp only [chainedG_eq] at this
+  exact this
+
+/-- the spelling `/[-1]/[last()]` of the position `[2][0]` of the order list in `deepOrdersRoot` -/
+def deepOrdersSp : List StepSp := [.idx (.neg 1) true, .idx .last true]
+example : renderSp .one deepOrdersSp = ['/', '[', '-', '1', ']', '/', '[', 'l', 'a', 's', 't', '(', ')', ']'] := by decide
+/-- the model on chained paths with spelled `P`, run against the implementation (identical values: `[[2]]` / first `2`, `[[3]]`,
+`[[2], [3]]` / first `[2, 3]`, a miss) -/
+theorem C06_chained_list_deep_spelled_example :
+    (XPath.getItem 90 deepOrdersRoot ['/', '[', '-', '1', ']', '/', '[', 'l', 'a', 's', 't', '(', ')', ']', '[', 'i', '=', '1', ']', '/', 't',
+      '[', 's', '=', 'B', ']', '/', 'q']).2 = .ok (.list .n0 [.list .n0 [.int 2]]) ∧
+    (XPath.first 90 deepOrdersRoot ['/', '[', '-', '1', ']', '/', '[', 'l', 'a', 's', 't', '(', ')', ']', '[', 'i', '=', '1', ']', '/', 't',
+      '[', 's', '=', 'B', ']', '/', 'q'] (.str ['D'])).2 = .ok (.int 2) ∧
+    (XPath.getItem 90 deepOrdersRoot ['/', '/', '[', '-', '2', ']', '/', 'o', '[', 'i', '=', '2', ']', '/', 't', '[', 's', '=', 'B', ']', '/', 'q']).2
+      = .ok (.list .n0 [.list .n0 [.int 3]]) ∧
+    (XPath.first 90 deepOrdersRoot ['[', 'l', 'a', 's', 't', '(', ')', ']', '[', '0', '+', '0', ']', '[', 'i', '!', '=', '9', ']', '/', 't',
+      '[', 's', '=', 'B', ']', '/', 'q'] .none).2 = .ok (.list .n0 [.int 2, .int 3]) ∧
+    (XPath.get 90 deepOrdersRoot ['/', '[', '-', '1', ']', '/', '[', 'l', 'a', 's', 't', '(', ')', ']', '[', 'i', '=', '9', ']', '/', 't',
+      '[', 's', '=', 'B', ']', '/', 'q'] (.str ['D'])).2 = .ok (.str ['D']) := by
+  decide +kernel
+/-- … and through the theorem (non-vacuity): `/[-1]/[last()][i=1]/t[s=B]/q` -/
+example :
+    (XPath.getItem 90 deepOrdersRoot (renderSp .one deepOrdersSp ++ bracket (['i'] ++ ['='] ++ ['1']) ++ slash ++ ['t']
+        ++ bracket (['s'] ++ ['='] ++ ['B']) ++ slash ++ ['q']))
+      = (deepOrdersRoot, .ok (.list .n0 [.list .n0 [.int 2]])) ∧
+    (XPath.first 90 deepOrdersRoot (renderSp .one deepOrdersSp ++ bracket (['i'] ++ ['='] ++ ['1']) ++ slash ++ ['t']
+        ++ bracket (['s'] ++ ['='] ++ ['B']) ++ slash ++ ['q']) .none)
+      = (deepOrdersRoot, .ok (.int 2)) := by
+  have := C06_chained_list_deep_spelled .n0 _ .one deepOrdersSp ['i'] ['='] _ _ ['1'] ['t'] ['s'] ['='] _ _ ['B'] ['q'] .n0 ordersRootList
+    .none trivial (by simp [deepOrdersSp]) (show stepsGet deepOrdersRoot deepOrdersSp = some (.list .n0 ordersRootList) by decide)
+    fieldKey_i .eq1 (.bare ['1']) plainLit_1 plainKey_t fieldKey_s .eq1 (.bare ['B']) plainLit_B plainKey_q
+    (by decide) (by decide) ordersRoot_inner 90 (by decide)
+  simp only at this
+  rw [show selectChainedG true ['i'] ['t'] (condTest ['=', '='] (.str ['1'])) ['s'] ['q'] (condTest ['=', '='] (.str ['B'])) ordersRootList
+      = [.list .n0 [.int 2]] by decide,
+    show selectChainedG false ['i'] ['t'] (condTest ['=', '='] (.str ['1'])) ['s'] ['q'] (condTest ['=', '='] (.str ['B'])) ordersRootList
+      = [.int 2] by decide] at this
+  exact ⟨this.2.1, this.2.2⟩
+
+
 /-! ## literal values a condition cannot express (finding C06-g, open)
 
 `PlainLit v` (the hypothesis of every predicate theorem above) excludes blanks, quotes, brackets, `/`, `=`, `~`, `*`, `?`, `%` and the
